@@ -512,6 +512,29 @@ def gen_case(rng, tier, stream):
     branches.append(probe)
     cmpb = [['cmp', o, 0, 1] for o in CMPOPS] + [['hash', 0], ['hash', 1], ['cmp', 'eq', 0, 0], ['cmp', 'le', 0, 0]]
     branches.append(cmpb)
+    # history: copy -> mutate a list held by the copy in place -> copy the ORIGINAL again -> compare.  A copy operation must not
+    # depend on earlier copies.  The shallow variant mutates a list the original shares, and the real mutation would outlive
+    # the branch (the model restarts every branch from the state after the prefix): these two branches come last.
+    given0 = dict(kw0)
+    lists0 = [f['name'] for f in init_fields
+              if (trees0.get(f['name'], [None])[0] == 'list' and f['name'] in given0)
+              or (f['default'] == ['factory', 'list'] and f['name'] not in given0 and not pos)]
+    for meth in ('deep', 'copy'):
+        if meth == 'deep' and len(init_fields) > 3:
+            continue                                          # the model's deep copy relocates the heap once per field
+        if rng.random() < (0.8 if lists0 else 0.3):
+            br = [[meth, 0, []]]
+            if lists0:
+                br.append(['append', nreg, rng.choice(lists0), L.val(rng.choice([['int', 3], ['str', [97]], ['none'], ['list', []]]))])
+            S = [n for n in names if rng.random() < 0.3]
+            kw = []
+            for n in S:
+                a = ann_of[n]
+                kw.append([n, L.val(['inst', [5], rng.randrange(30)] if a == ['cls', ['user', [5]]] else gen_value(rng, a))])
+            br += [[meth, 0, kw], ['cmp', 'eq', 0, nreg + 1], ['cmp', 'eq', nreg, nreg + 1], ['validate', nreg + 1]]
+            if rng.random() < 0.5:
+                br += [['deep' if meth == 'copy' and len(init_fields) <= 3 else 'copy', nreg, []]]
+            branches.append(br)
     case.update({'atoms': L.atoms, 'heap': L.heap, 'prefix': prefix, 'branches': branches, 'target': target})
     return case
 
@@ -763,14 +786,6 @@ def evaluate(ck, cases):
     model = [None] * len(cases)
     if ck.model_ok and terms:
         res = ck.coq_eval(PRE, terms, chunk=60, timeout=1500)
-        stale = [o for o in ck.obligations if o['name'] == 'coq-eval' and not o['ok'] and 'inconsistent assumptions' in o['detail']]
-        if stale:
-            # another contributor rebuilt a library of the cone between our build and this evaluation (shared tree):
-            # rebuild the cone once and evaluate again
-            ck.obligations = [o for o in ck.obligations if o not in stale]
-            with BuildLock():
-                sh(['make', '-j%d' % NPROC] + MODEL, cwd=COQ, timeout=1500)
-            res = ck.coq_eval(PRE, terms, chunk=60, timeout=1500)
         for i, r in zip(idx, res):
             model[i] = r
     return impl, model
@@ -834,19 +849,27 @@ def run(pid, tier, seed, replay=None):
             disagreements.append({'case': c, 'first': dis[0], 'n': len(dis)})
     # smallest first; the first few are re-run on a reduced script (prefix + the one branch) to get a short replay
     found.sort(key=lambda cv: (size_of(cv[0]), json.dumps(cv[1]['where'])))
-    reduced_keys = set()
+    # Replays: for every kind of violation look (smallest first, a few attempts) for an occurrence that reproduces when the
+    # prefix and the one branch it occurred in are run alone in a fresh worker; those come first.  An occurrence that needs the
+    # history of the whole run (other branches, earlier cases in the same process) is still reported, with its full case.
+    confirmed, attempts, ordered = set(), {}, []
     for c, v in found:
-        payload_case = c
         key = (v.get('clause'), v['op'][0])
-        if key not in reduced_keys and len(reduced_keys) < 4 and replay is None:
-            reduced_keys.add(key)
+        payload_case, prio = c, 1
+        if key not in confirmed and attempts.get(key, 0) < 5 and len(attempts) <= 6 and replay is None:
+            attempts[key] = attempts.get(key, 0) + 1
             rc = reduce_case(c, v['where'])
             ri, rm = evaluate(ck, [rc])
             _, r10, r11 = judge(rc, ri[0], rm[0])
             if any(x.get('clause') == v.get('clause') for x in mine(r10, r11)):
-                payload_case = rc
+                payload_case, prio = rc, 0
+                confirmed.add(key)
+        ordered.append((prio, len(ordered), c, v, payload_case))
+    ordered.sort(key=lambda t: (t[0], t[1]))
+    for _, _, c, v, payload_case in ordered:
         ck.violation(f'{v.get("clause")} [operation {v["op"][0]} on class K{v.get("cls")}]', payload_case, stream='dataclass',
-                     extra={'violation': {k: v[k] for k in v if k != 'model'}, 'model_observation': v.get('model')},
+                     extra={'violation': {k: v[k] for k in v if k != 'model'}, 'model_observation': v.get('model'),
+                            'reproduces_alone': payload_case is not c},
                      matcher=lambda f, case, _v=v, _c=payload_case: matcher_fn(f, {'case': _c, 'violation': _v}))
     disagreements.sort(key=lambda d: size_of(d['case']))
     ck.oblige('correspondence:dataclass', 'correspondence', not disagreements,
